@@ -420,5 +420,5 @@ func main() {
 		"delay-bounded exhaustive exploration of one query on a real Session over three scripted nodes: configuration choices (idempotent or not, retry budget -1..2, every decision of a scripted RetryPolicy among Retry/RetryNextHost/Rethrow/Ignore/unknown) are free choice points (all explored); per-attempt outcomes (ok, Unavailable, ReadTimeout, WriteTimeout, Overloaded, no reply -> timeout, connection dropped, late reply) cost F, schedule/timer deviations cost P/D, total <= T; node logs and policy consultations are replayed against the documented contract",
 		[]string{"3 hosts, 1 connection each, round-robin policy wrapped by a recorder; request timeout 100ms; speculative delay 50ms; no control connection",
 			"stream-allocator atomics are not scheduling points (C08); map iteration order fixed; -race pass separate"},
-		defs, 75*time.Second, 12*time.Minute, nil)
+		defs, 75*time.Second, 25*time.Minute, nil)
 }
